@@ -4,6 +4,7 @@ import (
 	"bufio"
 	"fmt"
 	"io"
+	"os"
 	"os/exec"
 	"strconv"
 	"strings"
@@ -37,10 +38,18 @@ type Solver struct {
 	Time      time.Duration
 	Trace     io.Writer // optional transcript
 	inPath    bool
+	Slowest   time.Duration
+	NSlow     int
+	Lost      bool // the process was killed after a hard timeout: the current path context is gone
+	lines     chan string
 }
 
 func NewSolver(bin []string, timeoutMs int) *Solver {
 	s := &Solver{Bin: bin, TimeoutMs: timeoutMs}
+	if p := os.Getenv("VERIF_SOLVER_TRACE"); p != "" {
+		f, _ := os.CreateTemp("", p+"-*.smt2")
+		s.Trace = f
+	}
 	s.start()
 	return s
 }
@@ -55,7 +64,23 @@ func (s *Solver) start() {
 	}
 	s.in = in
 	s.out = bufio.NewReaderSize(out, 1<<16)
+	lines := make(chan string, 256)
+	s.lines = lines
+	rd := s.out
+	go func() {
+		for {
+			l, err := rd.ReadString('\n')
+			if err != nil {
+				close(lines)
+				return
+			}
+			lines <- strings.TrimSpace(l)
+		}
+	}()
 	s.send("(set-option :produce-models true)")
+	if strings.Contains(s.Bin[0], "z3-new") {
+		s.send("(set-logic QF_UFBV)")
+	}
 	if strings.Contains(s.Bin[0], "z3") {
 		s.send(fmt.Sprintf("(set-option :timeout %d)", s.TimeoutMs))
 	}
@@ -88,6 +113,7 @@ func (s *Solver) send(line string) {
 
 // BeginPath opens a fresh scope; all declarations/definitions live inside it.
 func (s *Solver) BeginPath() {
+	s.Lost = false
 	if s.inPath {
 		s.EndPath()
 	}
@@ -168,9 +194,21 @@ func (s *Solver) Assert(st *Store, t *Term) {
 	s.send("(assert " + Ref(t) + ")")
 }
 
+var errTimeout = fmt.Errorf("solver hard timeout")
+
+// readLine waits for the next output line; if the solver stays silent far beyond its own timeout the
+// process is considered stuck.
 func (s *Solver) readLine() (string, error) {
-	l, err := s.out.ReadString('\n')
-	return strings.TrimSpace(l), err
+	limit := time.Duration(s.TimeoutMs)*time.Millisecond*2 + 10*time.Second
+	select {
+	case l, ok := <-s.lines:
+		if !ok {
+			return "", io.EOF
+		}
+		return l, nil
+	case <-time.After(limit):
+		return "", errTimeout
+	}
 }
 
 // Check runs check-sat under the given extra literals (terms must be Bool).
@@ -208,6 +246,7 @@ func (s *Solver) Check(st *Store, assume []*Term, negate []bool) Result {
 		if err != nil {
 			s.Errors++
 			s.restart()
+			s.Lost = true
 			res = Unknown
 			break
 		}
@@ -242,7 +281,14 @@ func (s *Solver) Check(st *Store, assume []*Term, negate []bool) Result {
 			break
 		}
 	}
-	s.Time += time.Since(t0)
+	dt := time.Since(t0)
+	s.Time += dt
+	if dt > s.Slowest {
+		s.Slowest = dt
+	}
+	if dt > 500*time.Millisecond {
+		s.NSlow++
+	}
 	switch res {
 	case Sat:
 		s.NSat++
